@@ -104,7 +104,7 @@ def run(ck: Check):
     ck.rule(
         f"all 2^{L} 0/1 streams of length {L} and random [0,1] streams (both modes): (i) verdict vs the two-sample Hoeffding / McDiarmid bound evaluated on the detector's own "
         "cut-point samples at every non-drift step; (ii) every one-sided alarm is a two-sided alarm up to the first two-sided alarm; (iii) HDDM-A two-sided verdicts unchanged under x -> 1-x; "
-        "(iv) 0^n 1^k / 1^n 0^k family: both flagged by the two-sided detector within the delay bound solved from the formula; near ties (1e-9) skipped, EXCEPT the exact-tie family: levels with ln(1/alpha) an exact float (2 and 8), all 0/1 streams of length 8 (11), steps where the difference equals the bound exactly in rationals and in the code's float expression must warn; non-trivial = some alarm"
+        "(iv) 0^n 1^k / 1^n 0^k family (n up to 1100: bounds converged in binary64, exact cut-point ties; these runs also go through the model correspondence): both flagged by the two-sided detector within the delay bound solved from the formula; near ties (1e-9) skipped, EXCEPT the exact-tie family: levels with ln(1/alpha) an exact float (2 and 8), all 0/1 streams of length 8 (11), steps where the difference equals the bound exactly in rationals and in the code's float expression must warn; non-trivial = some alarm"
     )
 
     def streams():
@@ -256,13 +256,22 @@ def run(ck: Check):
         c2 = dict(base, two_sided_test=True)
         Ld = math.log(1 / base["alpha_d"])
         lam = base["lambda_"]
-        for n in sorted({max(base["min_num_instances"], 30), 50, 100, nmax // 2, nmax}):
+        for n in sorted({max(base["min_num_instances"], 30), 50, 100, nmax // 2, nmax, 700, 1100}):
             K = next((k for k in range(1, 3000) if 1 - (1 - lam) ** k > math.sqrt((ibc(lam, n) + ibc(lam, k)) * Ld / 2) * (1 + 1e-9)), None)
             if K is None:
                 continue
             rise, _, _ = run_impl(W, c2, [0] * n + [1] * (K + 1))
             drop, _, _ = run_impl(W, c2, [1] * n + [0] * (K + 1))
             ck.evals += 2
+            if n >= 700:
+                # constant runs long enough for the McDiarmid bound to have converged in binary64 (exact ties of
+                # ewma + eps with the running cut point): the whole run is also compared with the model, both modes
+                for cc in (dict(base, two_sided_test=False), c2):
+                    for xs_ in ([0] * n + [1] * (K + 1), [1] * n + [0] * (K + 1)):
+                        o_, e_, _ = run_impl(W, cc, xs_)
+                        if e_ is None:
+                            cases.append((W, cc, xs_, None))
+                            impl.append(o_)
             ck.nontrivial.add(f"risedropW{base}{n}")
             fr = next((i for i, o in enumerate(rise) if o[0] and i >= n), None)
             pre_alarm = any(o[0] for o in drop[:n])
